@@ -434,6 +434,20 @@ func run(r *ev.Run) {
 		eval(r, doc{text: "server4:\n  plugins:\n    - a: 1\n      b: 2\n", reject: true}, "two-key-item/file-name")
 	}
 	nameTmpl = "c18-%d.yml"
+	// large files: the whole text counts, however long (plugin lists crossing 64 KiB / 1 MiB,
+	// a second section behind 70 KiB of comments - valid and invalid)
+	{
+		var many []pluginItem
+		for i := 0; i < 3000; i++ {
+			many = append(many, pluginItem{yaml: fmt.Sprintf("dns: 10.%d.%d.1 10.9.9.9", i/250, i%250), name: "dns", args: []string{fmt.Sprintf("10.%d.%d.1", i/250, i%250), "10.9.9.9"}})
+		}
+		pad := strings.Repeat("# "+strings.Repeat("x", 98)+"\n", 720)
+		eval(r, doc{text: "server4:\n  listen: 192.0.2.1\n" + pluginsYAML(many), expect: map[int]*section{4: {plugins: many, listen: []net.UDPAddr{{IP: net.ParseIP("192.0.2.1"), Port: 67}}}, 6: nil}, skipLis: map[int]bool{}}, "large/3000-plugins")
+		eval(r, doc{text: "server4:\n  listen: 192.0.2.1\n" + pluginsYAML(items[:2]) + pad + "server6:\n  listen: '[2001:db8::1]'\n" + pluginsYAML([]pluginItem{items[5], items[2]}),
+			expect: map[int]*section{4: {plugins: items[:2], listen: []net.UDPAddr{{IP: net.ParseIP("192.0.2.1"), Port: 67}}}, 6: {plugins: []pluginItem{items[5], items[2]}, listen: []net.UDPAddr{{IP: net.ParseIP("2001:db8::1"), Port: 547}}}}, skipLis: map[int]bool{}}, "large/second-section-after-70KiB")
+		eval(r, doc{text: "server4:\n  listen: 192.0.2.1\n" + pluginsYAML(items[:2]) + pad + "server6:\n  listen: 192.0.2.9\n" + pluginsYAML([]pluginItem{items[5]}), reject: true}, "large/invalid-section-after-70KiB")
+		eval(r, doc{text: pad + pad + "server4:\n  listen: 192.0.2.1\n" + pluginsYAML(items[:2]), expect: map[int]*section{4: {plugins: items[:2], listen: []net.UDPAddr{{IP: net.ParseIP("192.0.2.1"), Port: 67}}}, 6: nil}, skipLis: map[int]bool{}}, "large/section-after-140KiB")
+	}
 	noListen := doc{expect: map[int]*section{4: {plugins: one}}, skipLis: map[int]bool{4: true}}
 	noListen.text = "server4:\n" + pluginsYAML(one)
 	eval(r, noListen, "listen-absent/v4")
